@@ -12,6 +12,8 @@ import (
 
 	"github.com/superfly/ltx"
 	"golang.org/x/sync/errgroup"
+
+	"github.com/benbjohnson/litestream/verifhook"
 )
 
 var (
@@ -311,12 +313,14 @@ func (s *Store) RegisterDB(db *DB) error {
 	db.RetentionEnabled = s.RetentionEnabled
 	db.Done = s.done
 
+	verifhook.Yield("store:register_before_open")
 	// Open the database without holding the lock to avoid blocking other operations.
 	// The double-check pattern below handles the race condition.
 	if err := db.Open(); err != nil {
 		return fmt.Errorf("open db: %w", err)
 	}
 
+	verifhook.Yield("store:register_after_open")
 	// Second check: verify database wasn't added by another goroutine while we were opening.
 	// If it was, close our instance and return without error.
 	s.mu.Lock()
